@@ -152,6 +152,151 @@ pub fn check_map(case: &MapCase, st: &mut Stats) -> Vec<Fail> {
     fails
 }
 
+
+// ---------------------------------------------------------------------------------------------
+// Leg 2: column references in queries over tables that live in schemas (s1.t, s2.t, s2.u)
+
+#[derive(Clone, Debug, Serialize, Deserialize)]
+pub struct ColCase {
+    /// left / right table of the join: index into [s1.t, s2.t, s2.u, s1.u]
+    pub left: u8,
+    pub right: u8,
+    pub alias_left: bool,
+    pub alias_right: bool,
+    /// how the selected column is written: 0 bare, 1 table.col, 2 schema.table.col, 3 alias.col
+    pub form: u8,
+    /// which side the reference is meant for and which column (0 id, 1 a, 2 only_<table>)
+    pub side: bool,
+    pub col: u8,
+    pub join: u8,
+}
+
+pub fn col_strategy() -> BoxedStrategy<ColCase> {
+    (0u8..4, 0u8..4, any::<bool>(), any::<bool>(), 0u8..4, any::<bool>(), 0u8..3, 0u8..3)
+        .prop_map(|(left, right, alias_left, alias_right, form, side, col, join)| ColCase { left, right, alias_left, alias_right, form, side, col, join })
+        .boxed()
+}
+
+const QT: [(&str, &str); 4] = [("s1", "t"), ("s2", "t"), ("s2", "u"), ("s1", "u")];
+
+/// every table has id, a (a distinctive range per table) and one column of its own
+fn q_relations() -> Hierarchy<std::sync::Arc<qrlew::relation::Relation>> {
+    use qrlew::data_type::DataType;
+    use qrlew::relation::{Field, Relation, Schema, Table};
+    QT.iter()
+        .enumerate()
+        .map(|(i, (s, t))| {
+            let lo = 100 * i as i64;
+            let fields = vec![
+                Field::new("id".into(), DataType::integer_interval(0, 50), None),
+                Field::new("a".into(), DataType::integer_interval(lo, lo + 10), None),
+                Field::new(format!("only_{s}_{t}"), DataType::integer_interval(lo + 20, lo + 30), None),
+            ];
+            let tab = Table::new(format!("{s}_{t}"), vec![s.to_string(), t.to_string()].into(), Schema::new(fields), qrlew::data_type::Integer::from_value(10));
+            (vec![s.to_string(), t.to_string()], std::sync::Arc::new(Relation::Table(tab)))
+        })
+        .collect()
+}
+
+pub fn check_cols(case: &ColCase, st: &mut Stats) -> Vec<Fail> {
+    use qrlew::relation::Variant as _;
+    let mut fails = vec![];
+    let (li, ri) = (case.left as usize % 4, case.right as usize % 4);
+    if li == ri {
+        st.reject();
+        return fails;
+    }
+    st.eval();
+    // how each side can be named in the query
+    let side = |i: usize, aliased: bool, al: &str| -> (String, Vec<Vec<String>>) {
+        let (s, t) = QT[i];
+        if aliased {
+            (format!("{s}.{t} AS {al}"), vec![vec![al.to_string()]])
+        } else {
+            // a table written s.t is visible as s.t and, by suffix, as t
+            (format!("{s}.{t}"), vec![vec![s.to_string(), t.to_string()]])
+        }
+    };
+    let (lsql, lq) = side(li, case.alias_left, "l");
+    let (rsql, rq) = side(ri, case.alias_right, "r");
+    // visible columns: (qualifier path, column, table index)
+    let mut visible: Vec<(Vec<String>, String, usize)> = vec![];
+    for (quals, i) in [(&lq, li), (&rq, ri)] {
+        let (s, t) = QT[i];
+        for c in ["id".to_string(), "a".to_string(), format!("only_{s}_{t}")] {
+            visible.push((quals[0].clone(), c, i));
+        }
+    }
+    let target = if case.side { ri } else { li };
+    let (ts, tt) = QT[target];
+    let col = match case.col % 3 {
+        0 => "id".to_string(),
+        1 => "a".to_string(),
+        _ => format!("only_{ts}_{tt}"),
+    };
+    let aliased = if case.side { case.alias_right } else { case.alias_left };
+    let written: Vec<String> = match case.form % 4 {
+        0 => vec![col.clone()],
+        1 => vec![if aliased { if case.side { "r".into() } else { "l".into() } } else { tt.to_string() }, col.clone()],
+        2 if !aliased => vec![ts.to_string(), tt.to_string(), col.clone()],
+        _ => vec![if aliased { if case.side { "r".to_string() } else { "l".to_string() } } else { tt.to_string() }, col.clone()],
+    };
+    // reference model: the written path must be a suffix of exactly one visible column path
+    let cands: Vec<usize> = visible
+        .iter()
+        .filter(|(q, c, _)| {
+            let mut full = q.clone();
+            full.push(c.clone());
+            full.len() >= written.len() && full[full.len() - written.len()..] == written[..]
+        })
+        .map(|(_, _, i)| *i)
+        .collect();
+    let join_cond = {
+        let name = |quals: &Vec<Vec<String>>| quals[0].join(".");
+        format!("{}.id = {}.id", name(&lq), name(&rq))
+    };
+    let kw = ["JOIN", "LEFT JOIN", "FULL JOIN"][case.join as usize % 3];
+    let sql = format!("SELECT {} AS x FROM {lsql} {kw} {rsql} ON {join_cond}", written.join("."));
+    let rels = q_relations();
+    let res = crate::safe::safe(|| {
+        let q = qrlew::sql::relation::parse(&sql).map_err(|e| e.to_string())?;
+        qrlew::relation::Relation::try_from(qrlew::sql::relation::QueryWithRelations::new(&q, &rels)).map_err(|e| e.to_string())
+    });
+    let class = match cands.len() {
+        0 => "none",
+        1 => "unique",
+        _ => "ambiguous",
+    };
+    st.class(&format!("column:{class}"));
+    let form = ["bare", "table.col", "schema.table.col", "alias_or_table.col"][case.form as usize % 4];
+    match (cands.len(), res) {
+        (1, Ok(Ok(rel))) => {
+            // the range of column a / only_* tells which table the reference was bound to
+            let dt = qrlew::data_type::DataTyped::data_type(rel.schema().iter().next().unwrap()).to_string();
+            if col != "id" {
+                let lo = 100 * cands[0] as i64 + if col == "a" { 0 } else { 20 };
+                let bound_to_expected = dt.contains(&format!("[{} {}]", lo, lo + 10));
+                if !bound_to_expected {
+                    fails.push(Fail::new(format!("C15|column_bound_to_wrong_table|{form}"), format!("{sql}\nthe reference designates {}.{} (range starting at {lo}) but the output column has type {dt}", QT[cands[0]].0, QT[cands[0]].1)));
+                }
+                st.nontrivial(hash_json(case));
+            }
+        }
+        (1, Ok(Err(e))) => fails.push(Fail::new(format!("C15|unique_column_refused|{form}"), format!("{sql}\nexactly one visible column matches, but: {e}"))),
+        (n, Ok(Ok(rel))) if n != 1 => {
+            let dt = qrlew::data_type::DataTyped::data_type(rel.schema().iter().next().unwrap()).to_string();
+            fails.push(Fail::new(format!("C15|{class}_column_accepted|{form}"), format!("{sql}\n{n} visible columns match the reference, yet it was bound (output type {dt})")));
+        }
+        (_, Err(p)) => {
+            // totality is C18's subject; an ambiguous reference answered by a panic is still not an arbitrary binding
+            st.class(&format!("column_panic:{}", p.file_line()));
+        }
+        _ => {}
+    }
+    st.sample(|| json!({"sql": sql, "candidates": cands.len()}));
+    fails
+}
+
 pub fn run(ctx: &Ctx, findings: &Findings) -> Report {
     let mut rep = Report::new(
         "C15",
@@ -160,6 +305,9 @@ pub fn run(ctx: &Ctx, findings: &Findings) -> Report {
     );
     rep.assumptions = vec!["the reference model is the property statement transcribed (20 lines)".into()];
     rep.legs.push(search(ctx, "C15", "maps", ctx.cases(3_000_000, 20), findings, map_strategy, check_map));
+    rep.legs.push(search(ctx, "C15", "columns", ctx.cases(20_000, 10), findings, col_strategy, check_cols));
+    rep.require_class("column:unique", 3_000);
+    rep.require_class("column:ambiguous", 1_000);
     rep.require_class("lookup:ambiguous", 10_000);
     rep.require_class("lookup:unique_suffix", 10_000);
     rep.require_class("lookup:exact", 10_000);
@@ -170,6 +318,7 @@ pub fn run(ctx: &Ctx, findings: &Findings) -> Report {
 pub fn replay(leg: &str, spec: &J, st: &mut Stats) -> Result<Vec<Fail>, String> {
     match leg {
         "maps" => Ok(check_map(&decode::<MapCase>(spec)?, st)),
+        "columns" => Ok(check_cols(&decode::<ColCase>(spec)?, st)),
         _ => Err(format!("unknown leg {leg}")),
     }
 }
